@@ -125,6 +125,10 @@ func (w *Watcher) getGovernanceEventsByTxId(
 
 	reobservedEvents := make([]*reobservedEvent, 0)
 	for _, event := range events.Events {
+		// only events emitted by the governance contract, in the block the transaction is confirmed in
+		if event.ContractAddress != address || event.BlockHash != blockHash {
+			continue
+		}
 		if event.EventIndex != WormholeMessageEventIndex {
 			continue
 		}
